@@ -391,6 +391,18 @@ def check_C10(tier, replay=None):
     runs = [("MC_C10_" + sh, {"Shape": '"%s"' % sh, "Small": "TRUE" if tier == "quick" else "FALSE"}) for sh in shapes]
     std_flow(R, "MC_C10", runs, "Trace_C10", {}, ("D06", "D06b", "D07", "D38"), ["RegistryInvariant", "AllModules", "Emit"])
     R.extra["exhaustive"] = True
+    # the declaration clauses also on what is generated for the schema sets and WSDLs of MC_CR (envelope structs included)
+    import crpipe
+    crpipe.run_pipeline(tier, cr_cases(tier))
+    gen_traces = glob_traces("CR_" + tier)
+    if not gen_traces:
+        os.environ["ZV_NOCACHE"] = "1"
+        crpipe.run_pipeline(tier, cr_cases(tier))
+        os.environ.pop("ZV_NOCACHE", None)
+        gen_traces = glob_traces("CR_" + tier)
+    v2, _, _, _ = trace_run(R, "Trace_NsOut", cfg("TraceSpec", {}, post="Accepted"), gen_traces, "T_NsOut")
+    R.viol += v2
+    R.extra["cr_generations_checked"] = len(gen_traces)
     # the writer's emission order (spec/Writer.tla), whose steps Trace_C10 matches against the emit hook events
     wres, _, _, _ = mc_run(R, "MC_Writer", cfg("MCSpec", {}, invariants=["HelpersLast", "HeaderFirst", "Balanced", "EverythingOnce"], properties=["Finishes"]), "MC_Writer", workers=4)
     if tier == "thorough":
@@ -477,7 +489,7 @@ def check_C13(tier, replay=None):
     dev = [d for d in z.dev_set() if d in ("D24a", "D24b", "D24c", "D24d", "D24e", "D03")]
     devs = tla_set(dev)
     z.build_harness()
-    consts = {"Dev": devs, "Features": FEATURES, "MaxIdx": "4" if tier == "quick" else "8"}
+    consts = {"Dev": devs, "Features": FEATURES, "MaxIdx": "4" if tier == "quick" else "8", "ChainN": "150" if tier == "quick" else "1500"}
     c = cfg("MCSpec", consts, invariants=["Robust"], properties=["Terminates"])
     res, vocab, _, tagged = mc_run(R, "MC_C13", c, "MC_C13", workers=4, need_ok=not dev)
     bases = [p for t, p in tagged if t == "BASE"]
